@@ -519,6 +519,8 @@ class ChemicalIndexer(Indexer):
     def reset_chemicals(self, chemicals, container=None):
         old_data = self.data
         old_container = (old_data, self._data_cache)
+        index = chemicals.index # Undefined chemicals raise before any change
+        items = [(index(CAS), value) for CAS, value in zip(self._chemicals.CASs, old_data) if value]
         if container is None:
             self.data = data = SparseVector.from_size(chemicals.size)
             self._data_cache = {}
@@ -526,8 +528,7 @@ class ChemicalIndexer(Indexer):
             data, self._data_cache = container
             self.data =  data
             data.clear()
-        for CAS, value in zip(self._chemicals.CASs, old_data):
-            if value: data.dct[chemicals.index(CAS)] = value
+        for i, value in items: data.dct[i] = value
         self._chemicals = chemicals
         return old_container
     
@@ -742,19 +743,21 @@ class MaterialIndexer(Indexer):
         old_data = self.data
         old__data_cache = self._data_cache
         N_phases = len(self._phases)
+        old_chemicals = self._chemicals
+        old_index = range(old_chemicals.size)
+        CASs = old_chemicals.CASs
+        items = []
+        for i in range(N_phases):
+            for j in old_index:
+                value = old_data[i, j]
+                if value: items.append((i, chemicals.index(CASs[j]), value)) # Undefined chemicals raise before any change
         if container is None:
             self.data = data = SparseArray.from_shape([N_phases, chemicals.size])
             self._data_cache = {}
         else:
             self.data, self._data_cache = data, cache = container
             data[:] = 0.
-        old_chemicals = self._chemicals
-        old_index = range(old_chemicals.size)
-        CASs = old_chemicals.CASs
-        for i in range(N_phases):
-            for j in old_index:
-                value = old_data[i, j]
-                if value: data[i, chemicals.index(CASs[j])] = value
+        for i, j, value in items: data[i, j] = value
         self._load_chemicals(chemicals)
         self._set_cache()
         return (old_data, old__data_cache)
